@@ -22,8 +22,22 @@ RULE = ("One real Zeroconf in the simulator with 1..3 AsyncServiceBrowsers over 
 ASSUMPTIONS = ["PTR owner names are spelled exactly as the browsed type; no sub/super-types; no case-variants within one datagram;"
                " browsers are not created while an expired-but-unpurged PTR of their type is cached (generator checks; discards counted)"]
 
-TYPES = ["_http._tcp.local.", "_ipp._tcp.local."]
+BASE_TYPES = ["_http._tcp.local.", "_ipp._tcp.local."]
+# a subtype whose own label has no underscore (RFC 6763 section 7.1: subtype identifiers are arbitrary strings); its pointers
+# lead to instances of the base type
+PLAIN_SUBTYPE = "printer._sub._http._tcp.local."
+TYPES = list(BASE_TYPES)
 INST = {t: ["one." + t, "two." + t, "Three." + t] for t in TYPES}
+
+
+def set_flavour(plain_subtype: bool) -> None:
+    """One run in seven browses the plain-label subtype in place of its base type (never both: the property excludes
+    browsed types that are sub/super-types of one another)."""
+    TYPES[:] = [PLAIN_SUBTYPE if plain_subtype else BASE_TYPES[0], BASE_TYPES[1]]
+    INST.clear()
+    for t in TYPES:
+        base = BASE_TYPES[0] if t == PLAIN_SUBTYPE else t
+        INST[t] = ["one." + base, "two." + base, "Three." + base]
 HOSTS = ["h1.local.", "h2.local."]
 TTLS = [0, 1, 2, 1125, 4500]
 ADV = [0, 1, 500, 999, 1000, 1001, 5000, 9999, 10000, 10001, 60000, 843750, 1124000, 1125000, 1126000, 1135000, 3375000, 4499000, 4500000, 4510000, 7200000]
@@ -205,6 +219,8 @@ def run_history(res: Result, seed: int, length: int) -> None:
     run = Run(res, seed)
     run.length = length
     rng = run.rng
+    set_flavour(random.Random(seed ^ 0x5B).random() < 0.15)
+    run.steps.append(["flavour", list(TYPES)])
     Spy = make_listener_class()
     res.evaluations += 1
     with simnet.Sim(seed & 0xFFFF) as sim:
@@ -305,6 +321,7 @@ def run_threaded(res: Result, seed: int) -> None:
     problems: List[str] = []
     injected: List[Tuple[str, int]] = []          # appended (under the lock) before the datagram is handed to the instance
     withdrawn_meanwhile: List[str] = []
+    set_flavour(False)
     T = TYPES[0]
 
     class L(ServiceListener):
